@@ -417,7 +417,7 @@ fn cmd_run(args: &[String]) -> i32 {
         if std::env::var("VERIF_DEBUG").is_ok() {
             eprintln!("shrinking run {} class {} type {} mode {}", run, class, ty, spec.mode);
         }
-        let mut sh = shrink::Shrinker { menu: &menu, class: class.clone(), execs: 0, max_execs: 4000 };
+        let mut sh = shrink::Shrinker { menu: &menu, class: class.clone(), execs: 0, max_execs: 4000, started: Instant::now() };
         let small = sh.shrink(&spec);
         let tyo = by_name(&menu, &small.ty).unwrap();
         let rr = exec::run(&small, tyo, false);
